@@ -12,6 +12,27 @@ class Tree:
         self.dirs = {""}
         self.files = {}        # rel path -> text
         self.links = set()     # rel paths (keys of files) that are written as symbolic links to regular files kept elsewhere
+        self.dirlinks = {}     # rel path of a symbolic link to a directory -> rel path of its target directory (of this tree)
+        self.virtual = set()   # rel paths (directories and files) that exist only through a FOLLOWED directory link
+        self.follow = False    # whether the run is expected to follow directory links (input.follow_symlinks)
+
+    def add_dirlink(self, link, target, follow):
+        """`link` becomes a symbolic link to the directory `target`. With follow=True the tree also lists everything that is
+        reachable through the link (same texts as below the target); with follow=False the link is no directory of the tree."""
+        self.dirlinks[link] = target
+        self.follow = follow
+        if not follow:
+            return
+        for d in sorted(self.dirs):
+            if d == target or d.startswith(target + "/"):
+                v = link + d[len(target):]
+                self.dirs.add(v)
+                self.virtual.add(v)
+        for f, t in sorted(self.files.items()):
+            if f.startswith(target + "/"):
+                v = link + f[len(target):]
+                self.files[v] = t
+                self.virtual.add(v)
 
     def subdirs(self, d):
         return sorted(x for x in self.dirs if x != "" and os.path.dirname(x) == d)
@@ -21,10 +42,17 @@ class Tree:
 
     def write(self, root):
         for d in sorted(self.dirs):
-            os.makedirs(os.path.join(root, d), exist_ok=True)
+            if d not in self.virtual:
+                os.makedirs(os.path.join(root, d), exist_ok=True)
+        for link, target in sorted(self.dirlinks.items()):
+            lp = os.path.join(root, link)
+            if not os.path.lexists(lp):
+                os.symlink(os.path.relpath(os.path.join(root, target), os.path.dirname(lp)), lp)
         store = os.path.join(os.path.dirname(root), "link_targets_of_" + os.path.basename(root))
         for n_, (f, t) in enumerate(sorted(self.files.items())):
             dest = os.path.join(root, f)
+            if f in self.virtual:
+                continue
             if f in self.links:
                 os.makedirs(store, exist_ok=True)
                 real = os.path.join(store, f"t{n_}_" + os.path.basename(f))
@@ -55,7 +83,7 @@ def cmake_text(rel, rng=None, rich=False):
 
 
 def gen_tree(rng, max_depth=4, p_sub=0.6, mixed_case=True, noncmake=True, rich=False, ensure_top=True, case_twins=False,
-             index_module=False, symlinks=False):
+             index_module=False, symlinks=False, dirlinks=False, follow=False):
     t = Tree()
     twins = {"a": "A", "b": "B", "top": "Top", "m": "M", "util": "Util", "sub": "Sub", "aa": "AA", "core": "Core", "zz": "ZZ"}
 
@@ -103,6 +131,28 @@ def gen_tree(rng, max_depth=4, p_sub=0.6, mixed_case=True, noncmake=True, rich=F
         t.files[os.path.join(d, "index.cmake")] = cmake_text(os.path.join(d, "index.cmake"), rng, rich)
     if ensure_top and not any(f.endswith(".cmake") for f in t.files_of("")):
         t.files["top.cmake"] = cmake_text("top.cmake", rng, rich)
+    if dirlinks:
+        # one or two sub-directories are symbolic links to another directory of the tree (never to an ancestor of the link)
+        for _ in range(rng.choice([1, 1, 2])):
+            cands = sorted(x for x in t.dirs if x and x not in t.virtual and not any(
+                x == l or x.startswith(l + "/") or l.startswith(x + "/") for l in t.dirlinks))
+            if not cands:
+                break
+            target = rng.choice(cands)
+            def inside(x, top):
+                return x == top or x.startswith(top + "/")
+            if any(inside(l, target) for l in t.dirlinks):
+                continue                # the target's subtree would contain an earlier link
+            parents = sorted(p for p in t.dirs if p not in t.virtual and not inside(p, target)
+                             and not any(inside(p, l) or inside(p, t0) for l, t0 in t.dirlinks.items()))
+            if not parents:
+                continue
+            parent = rng.choice(parents)
+            name = rng.choice(["zz_alias", "aa_alias", "compat", "Link.d"])
+            link = os.path.join(parent, name)
+            if link in t.dirs or link in t.dirlinks or any(os.path.join(parent, name + e) in t.files for e in ("", ".cmake")):
+                continue
+            t.add_dirlink(link, target, follow)
     return t
 
 
